@@ -25,6 +25,8 @@ func gen(r *hx.Rand, n int, tier string, prop string, out *hx.Out) {
 	out.P("probe refresh")
 	out.P("#case probe-refresher-vs-failing-update-in-backoff")
 	out.P("probe refreshbackoff")
+	out.P("#case probe-configuration-validation")
+	out.P("probe validate")
 	// the backoff computation on bounds and attempt counts no run reaches: seconds to hours, up to 70 attempts
 	{
 		g := r.Fork()
